@@ -15,7 +15,7 @@ RULE = ("Real processes. Every cell of tool {assembler.py, file_util.py with a c
         "Hypothesis draws further contents for the cells and 2-4 invocation sequences on one path. Decision model: "
         "modification is permitted iff append and kind(existing) == kind being written, kind() decided by the "
         "independent readers (valid Disk BASIC image -> disk; tape grammar with >= 1 file -> cassette; zero-length -> "
-        "either; anything else -> other; --to_bin onto non-image bytes -> either). Not permitted: bytes and mtime "
+        "either when appending; anything else -> other; --to_bin onto non-image bytes -> either). Not permitted: bytes and mtime "
         "unchanged and stdout says why. Permitted / absent: if the file changed or appeared it must be a complete image "
         "of the requested kind holding the previous files plus the new one (bin: exactly the program bytes). "
         "Non-trivial = every case with an existing target or a sequence; distinct by case hash.")
@@ -195,7 +195,7 @@ def execute(case):
             if kind == "absent":
                 verdict = "new"
             elif kind == "empty":
-                verdict = "either"
+                verdict = "either" if step["append"] else "forbidden"     # no append flag: never touched, whatever it holds
             elif step["append"] and kind == want_kind:
                 verdict = "permitted"
             elif step["append"] and want_kind == "bin" and kind == "other":
